@@ -206,35 +206,33 @@ class _TwoCoordLib(object):
             return ERR_VALUE
         x = core.int_from_bytes(rd(xb, n), 'big')
         y = core.int_from_bytes(rd(yb, n), 'big')
-        # src/ed25519.c: ed25519_new_point() converts its input to 25.5-bit limbs and works modulo p with NO
-        # range check (non-reduced coordinates denote the reduced point); ec_ws.c / ed448.c go through
-        # mont_new_from_bytes(), which refuses values >= p
-        reduces = c.name == 'ed25519'
+        # None of the C constructors refuses a coordinate >= p: ed25519_new_point() converts to 25.5-bit limbs and
+        # works modulo p; ec_ws_new_point() / ed448_new_point() go through mont_new_from_bytes(), whose Montgomery
+        # conversion (or, for P-521, repeated subtraction) reduces modulo p.  A non-reduced coordinate therefore
+        # denotes the reduced point; the range check is the Python layer's job (PublicKey/_point.py).
         if isinstance(x, int) and isinstance(y, int):
-            if reduces:
-                x, y = x % c.p, y % c.p
-            elif x >= c.p or y >= c.p:
-                return ERR_VALUE
+            x, y = x % c.p, y % c.p
             if not self._on(c, x, y):
                 return ERR_EC_POINT
             out.set(Pt(c, x, y))
             return 0
         natives.stub_uses.add("ONCURVE_" + c.name)
-        if reduces:
-            def red(v):
-                if isinstance(v, int):
-                    return v % c.p
-                w = 8 * n + 1
-                e = _cbv(v, w)
-                pv = z3.BitVecVal(c.p, w)
-                e = z3.If(z3.UGE(e, pv), e - pv, e)
-                return SymInt.make(z3.If(z3.UGE(e, pv), e - pv, e), w, nn=True)
-            x, y = red(x), red(y)
-            ok = SymBool.make(_ufs(c)['on'](_cbv(x, 8 * n), _cbv(y, 8 * n)))
-        else:
-            xe, ye = _cbv(x, 8 * n), _cbv(y, 8 * n)
-            # coordinates must be reduced and satisfy the (uninterpreted) curve predicate
-            ok = core.sym_and(x < c.p, y < c.p, SymBool.make(_ufs(c)['on'](xe, ye)))
+
+        def red(v):
+            if isinstance(v, int):
+                return v % c.p
+            w = 8 * n + 1
+            e = _cbv(v, w)
+            pv = z3.BitVecVal(c.p, w)
+            times = ((1 << (8 * n)) - 1) // c.p
+            if times <= 3:
+                for _ in range(times):
+                    e = z3.If(z3.UGE(e, pv), e - pv, e)
+            else:
+                e = z3.URem(e, pv)
+            return SymInt.make(e, w, nn=True)
+        x, y = red(x), red(y)
+        ok = SymBool.make(_ufs(c)['on'](_cbv(x, 8 * n), _cbv(y, 8 * n)))
         if not ok:
             return ERR_EC_POINT
         out.set(Pt(c, x, y, smul=_recover_smul(c, x)))
@@ -385,7 +383,8 @@ def _mont_lib(prefix, curve, with_context):
                 out.set(Pt(curve, None, None, inf=True))
                 return 0
             x = core.int_from_bytes(rd(xb, n), 'big')
-            # every x coordinate is accepted (RFC 7748: curve or twist); reduced mod p by the ladder
+            # every x of the byte length is accepted (RFC 7748: curve or twist) and reduced mod p (curve25519: on the
+            # way out, in convert_le25p5_to_be8; curve448: on the way in, by mont_new_from_bytes)
             out.set(Pt(curve, x, None, smul=_recover_smul(curve, x)))
             return 0
 
